@@ -249,6 +249,11 @@ static void run_io(const params* p, void* obj, const uint8_t* src, size_t srclen
         t, &d, &s, wuffs_base__make_slice_u8(wb, wlen));
     st = z.repr;
     if (st == wuffs_base__suspension__short_write) {
+      if (d.meta.wi == 0) {
+        // a completely empty destination is still too small (lzma wants room for a whole
+        // match): no progress is possible with this capacity; report the suspension as final
+        break;
+      }
       h = fnv(h, dst, d.meta.wi);
       total += d.meta.wi;
       memset(dst, p->tail, dstcap);
